@@ -35,6 +35,9 @@ type vtConn struct {
 	wr       bytes.Buffer
 	closed   bool
 	consumed int
+	// called once, from Read, as soon as this many bytes have been handed out
+	hookAt int
+	hook   func()
 }
 
 func (c *vtConn) Read(p []byte) (int, error) {
@@ -53,6 +56,11 @@ func (c *vtConn) Read(p []byte) (int, error) {
 	copy(p, c.rd[:n])
 	c.rd = c.rd[n:]
 	c.consumed += n
+	if c.hook != nil && c.consumed >= c.hookAt {
+		h := c.hook
+		c.hook = nil
+		h()
+	}
 	return n, nil
 }
 func (c *vtConn) Write(p []byte) (int, error) {
@@ -214,13 +222,17 @@ type vtFeed struct {
 func (h *vtNode) feed(stream []byte, chunk int) vtFeed { return h.feedW(stream, chunk, false) }
 
 func (h *vtNode) feedW(stream []byte, chunk int, failWrite bool) vtFeed {
+	return h.feedH(stream, chunk, failWrite, 0, nil)
+}
+
+func (h *vtNode) feedH(stream []byte, chunk int, failWrite bool, hookAt int, hook func()) vtFeed {
 	before := h.snapshot()
 	d0 := h.del.calls()
 	mg0 := 0
 	if h.mg != nil {
 		mg0 = h.mg.calls
 	}
-	conn := &vtConn{rd: append([]byte(nil), stream...), chunk: chunk, failWrite: failWrite}
+	conn := &vtConn{rd: append([]byte(nil), stream...), chunk: chunk, failWrite: failWrite, hookAt: hookAt, hook: hook}
 	var f vtFeed
 	func() {
 		defer func() {
@@ -465,6 +477,13 @@ func vtRound(r *vfRng, st *vfStats, allCuts bool, round int) []vfCase {
 		h := vtMake(oc, []string{"ha"}, nil, nil, false)
 		f := h.feed(req, 0)
 		out = append(out, vtFeedCase(5, oc, ic, req, f, false, false, st))
+		// the same stranger sending something the reader cannot make sense of: still no reply of any kind
+		for _, body := range [][]byte{{0xff, 1, 2, 3}, {byte(compressMsg), 0x81, 0xa3}, append([]byte{byte(encryptMsg), 0, 0, 0, 40}, bytes.Repeat([]byte{9}, 40)...), {byte(pingMsg)}} {
+			bad := append(append([]byte(nil), lh...), body...)
+			h2 := vtMake(oc, []string{"ha"}, nil, nil, false)
+			f2 := h2.feed(bad, 0)
+			out = append(out, vtFeedCase(5, oc, ic, bad, f2, false, false, st))
+		}
 	}
 	if len(keys) > 0 {
 		// ---- tampered ciphertext: every header byte, sampled body bytes ----
@@ -500,6 +519,12 @@ func vtRound(r *vfRng, st *vfStats, allCuts bool, round int) []vfCase {
 			rc := hc
 			rc.keys = []int{keys[1]}
 			out = append(out, vtFeedCase(7, rc, ic, req, hr.feed(req, 0), false, true, st))
+			// the key is removed while the frame is arriving: header and one ciphertext byte are in, the
+			// removal completes, the rest follows.  Only keys installed when the frame is opened count.
+			hm := vtMake(hc, []string{"ha"}, nil, nil, false)
+			hm.m.config.Keyring.UseKey(vwKeys[keys[1]])
+			fm := hm.feedH(req, 2, false, len(lh)+5+1, func() { hm.m.config.Keyring.RemoveKey(vwKeys[keys[0]]) })
+			out = append(out, vtFeedCase(7, rc, ic, req, fm, false, true, st))
 		}
 		// ---- an authentic frame with an EMPTY plaintext, and one whose plaintext is a lone type byte ----
 		for _, pl := range [][]byte{{}, {byte(pushPullMsg)}, {byte(compressMsg)}} {
